@@ -5,6 +5,7 @@ import (
 	"fmt"
 	"os"
 	"path/filepath"
+	"time"
 
 	"github.com/dsnet/compress/brotli"
 	"github.com/dsnet/compress/xflate/verifharness/brcraft"
@@ -35,7 +36,12 @@ func brDict(r *vhlib.Run) []byte {
 
 func c02Check(r *vhlib.Run, m *vhlib.Model, data []byte, kind string) {
 	replay := map[string]interface{}{"input": vhlib.Hex(data), "kind": kind}
-	o := observe(codecs()[1], data, srcKinds()[0], []int{1 << 16}, r.Rng)
+	o := observeT(codecs()[1], data, srcKinds()[0], []int{1 << 16}, r.Rng, 20*time.Second)
+	if o.Cls == "hang" {
+		r.Eval(kind, true, data)
+		r.Violate("hang", "brotli.Reader: "+o.Bad, replay)
+		return
+	}
 	lout, lst, lused := ref.BrDecompress(data, len(o.Out)+1<<20)
 	lcls := map[string]string{"end": "nil", "more": "UEOF", "err": "Corrupted", "cap": "cap"}[lst]
 	r.Eval(kind, o.Cls == "nil" || len(o.Out) > 0 || len(data) > 3, data)
@@ -103,6 +109,7 @@ func runC02(r *vhlib.Run) {
 	m := vhlib.StartModel()
 	defer m.Close()
 	// regression corpus
+	c02Check(r, m, vhlib.UnHex("e20200004458801204"), "corpus-zero-distance")
 	c02Check(r, m, vhlib.UnHex("020000004458e017c0ffff3f"), "corpus-insert-past-mlen")
 	c02Check(r, m, vhlib.UnHex("03000000a0040002a00000"), "corpus-insert-past-mlen")
 	// every string of <= 2 bytes (quick: <= 1 and a stratified sample of 2)
